@@ -119,6 +119,85 @@ def mutants_of(tree):
             yield variant(m, 'arg-swap', f'{ast.unparse(n.func)}({n.args[0].id}, {n.args[1].id}) swapped')
 
 
+def text_mutants(src, tree):
+    """statement- and literal-level mutants made directly on the text: yields (operator, line, description, new source)
+       del-stmt      an in-place update / a rebinding of an existing name / an expression statement is replaced by `pass`
+       einsum-out    the last two output letters of an einsum subscript are exchanged
+       str-option    a string literal compared with `==` / `in [...]` is replaced by a sibling literal of the same test family"""
+    lines = src.split('\n')
+    funcs = [n for n in ast.walk(tree) if isinstance(n, (ast.FunctionDef, ast.AsyncFunctionDef))]
+    for fn in funcs:
+        bound = {a.arg for a in fn.args.args + fn.args.kwonlyargs + fn.args.posonlyargs}
+        body_stmts = []
+
+        def collect(stmts):
+            for st in stmts:
+                body_stmts.append(st)
+                for f in ('body', 'orelse', 'finalbody'):
+                    sub = getattr(st, f, None)
+                    if isinstance(sub, list) and sub and not isinstance(st, (ast.FunctionDef, ast.ClassDef)):
+                        collect(sub)
+                if isinstance(st, ast.Try):
+                    for h in st.handlers:
+                        collect(h.body)
+        collect(fn.body)
+        for st in body_stmts:
+            kill = False
+            what = ''
+            if isinstance(st, ast.AugAssign):
+                kill, what = True, 'in-place update dropped'
+            elif isinstance(st, ast.Assign) and len(st.targets) == 1 and isinstance(st.targets[0], ast.Name) and st.targets[0].id in bound and \
+                    any(isinstance(x, ast.Name) and x.id == st.targets[0].id for x in ast.walk(st.value)):
+                kill, what = True, f'rebinding of `{st.targets[0].id}` dropped'
+            elif isinstance(st, ast.Assign) and len(st.targets) == 1 and isinstance(st.targets[0], ast.Subscript):
+                kill, what = True, 'subscript store dropped'
+            elif isinstance(st, ast.Expr) and isinstance(st.value, ast.Call):
+                kill, what = True, 'call statement dropped'
+            if isinstance(st, ast.Assign):
+                for t in st.targets:
+                    for x in ast.walk(t):
+                        if isinstance(x, ast.Name):
+                            bound.add(x.id)
+            if not kill or isinstance(st, ast.Expr) and isinstance(st.value, ast.Constant):
+                continue
+            a, b = st.lineno - 1, st.end_lineno
+            indent = lines[a][:len(lines[a]) - len(lines[a].lstrip())]
+            new = lines[:a] + [indent + 'pass'] + lines[b:]
+            yield ('del-stmt', st.lineno, what, '\n'.join(new))
+    import re
+    for n in ast.walk(tree):
+        if isinstance(n, ast.Constant) and isinstance(n.value, str) and '->' in n.value and re.fullmatch(r'[A-Za-z.,\s]*->[A-Za-z.\s]*', n.value) and n.lineno == n.end_lineno:
+            out = n.value.split('->')[1]
+            letters = [c for c in out if c.isalpha()]
+            if len(letters) >= 2:
+                o2 = out[::-1].replace(letters[-1], '\0', 1).replace(letters[-2], letters[-1], 1).replace('\0', letters[-2], 1)[::-1]
+                if o2 != out:
+                    new_val = n.value.split('->')[0] + '->' + o2
+                    ln = lines[n.lineno - 1]
+                    seg = ln[n.col_offset:n.end_col_offset]
+                    if n.value in seg:
+                        new_ln = ln[:n.col_offset] + seg.replace(n.value, new_val, 1) + ln[n.end_col_offset:]
+                        yield ('einsum-out', n.lineno, f'{n.value!r} -> {new_val!r}', '\n'.join(lines[:n.lineno - 1] + [new_ln] + lines[n.lineno:]))
+    # option strings: x == 'a'  /  x in ['a', 'b']  ->  a sibling option of the same function
+    for fn in funcs:
+        opts = []
+        for n in ast.walk(fn):
+            if isinstance(n, ast.Compare) and len(n.ops) == 1 and isinstance(n.ops[0], (ast.Eq, ast.In)):
+                for c in [n.comparators[0]] + (list(n.comparators[0].elts) if isinstance(n.comparators[0], (ast.List, ast.Tuple)) else []):
+                    if isinstance(c, ast.Constant) and isinstance(c.value, str) and c.lineno == c.end_lineno:
+                        opts.append(c)
+        vals = sorted({c.value for c in opts})
+        if len(vals) < 2:
+            continue
+        for c in opts:
+            other = vals[(vals.index(c.value) + 1) % len(vals)]
+            ln = lines[c.lineno - 1]
+            seg = ln[c.col_offset:c.end_col_offset]
+            new_seg = seg.replace(c.value, other, 1)
+            if new_seg != seg:
+                yield ('str-option', c.lineno, f'{c.value!r} -> {other!r}', '\n'.join(lines[:c.lineno - 1] + [ln[:c.col_offset] + new_seg + ln[c.end_col_offset:]] + lines[c.lineno:]))
+
+
 def _replace_node(tree, i, pick):
     t2 = copy.deepcopy(tree)
     target = list(ast.walk(t2))[i]
@@ -250,6 +329,18 @@ def main():
                 continue
             key = (op, line, desc)
             if key in seen:
+                continue
+            seen.add(key)
+            jobs.append((rel, op, line, desc, new_src))
+        for op, line, desc, new_src in text_mutants(src, tree):
+            if ops and op not in ops:
+                continue
+            try:
+                ast.parse(new_src)
+            except Exception:
+                continue
+            key = (op, line, desc)
+            if key in seen or new_src == src:
                 continue
             seen.add(key)
             jobs.append((rel, op, line, desc, new_src))
